@@ -45,3 +45,90 @@ func ZZ_C11_Guards() {
 	zzWellFormed("C11.guards", r)
 	_ = types.RW
 }
+
+// C11 (a deletion carried out the way the cleaner does it): PrepareRemoveDisk's actions
+// are executed literally - coalesce = the blocks of Source are folded over Target (the
+// sfold contract), remove = RemoveDiffDisk(Source) - on a chain whose snapshots hold
+// data, with arbitrary user-created flags and with other snapshots already marked removed
+// but not yet taken (the cleaner orders by size, and may not take a snapshot whose merge
+// target is a retained user snapshot).  The victim obeys the cleaner's own rule (its
+// direct parent is not a retained user-created snapshot).  Afterwards the live volume and
+// every retained user-created snapshot read what they read before, also after a reopen.
+func ZZ_C11_DeleteSequence() {
+	n := zzParam("DELSNAPS", 4)
+	fs := zzInstallFS()
+	r, err := zzOpenReplica()
+	zzAssume(err == nil)
+	r.mode = types.RW
+	names := []string{"d0", "d1", "d2", "d3", "d4", "d5"}
+	for i := 0; i < n; i++ {
+		buf := make([]byte, 4096)
+		buf[0] = byte(i + 1)
+		_, werr := r.WriteAt(buf, int64(i%2)*4096)
+		zzAssume(werr == nil)
+		zzAssume(r.Snapshot(names[i], zzNondetBool("user"), "t") == nil)
+	}
+	d := &r.volume
+	// snapshots already marked removed and still in the chain (not base, not latest)
+	for i := 1; i < n-1; i++ {
+		if zzNondetBool("pending-removal") {
+			_, perr := r.PrepareRemoveDisk(names[i])
+			zzAssume(perr == nil)
+		}
+	}
+	victimIdx := 1 + zzConcretize(zzChoice("victim", n-2)) // d1..d(n-2): neither base nor latest
+	victim := GenerateSnapshotDiskName(names[victimIdx])
+	parent := r.diskData[victim].Parent
+	pd := r.diskData[parent]
+	zzAssume(pd != nil && !(pd.UserCreated && !pd.Removed))
+	// what is read before
+	live := make([]byte, 2*4096)
+	_, rerr := r.ReadAt(live, 0)
+	zzAssume(rerr == nil)
+	images := map[string][]byte{}
+	retained := map[string]bool{}
+	for k := 1; k < len(d.files)-1; k++ {
+		name := r.activeDiskData[k].Name
+		images[name] = zzSnapImage(d, k)
+		dd := r.diskData[name]
+		retained[name] = dd.UserCreated && !dd.Removed && name != victim
+	}
+	actions, aerr := r.PrepareRemoveDisk(victim)
+	zzAssert(aerr == nil, "C11.delete.prepare-refused-a-removable-snapshot")
+	if aerr != nil {
+		return
+	}
+	for _, a := range actions {
+		switch a.Action {
+		case OpCoalesce:
+			r.ZZFold(a.Source, a.Target)
+		case OpRemove:
+			zzAssert(r.RemoveDiffDisk(a.Source) == nil, "C11.delete.remove-failed")
+		}
+	}
+	check := func(tag string, rep *Replica) {
+		dd := &rep.volume
+		rb := make([]byte, 2*4096)
+		_, e := rep.ReadAt(rb, 0)
+		zzAssert(e == nil, "C11.delete.read-failed"+tag)
+		zzAssert(rb[0] == live[0] && rb[4096] == live[4096], "C11.delete.live-data-changed"+tag)
+		for k := 1; k < len(dd.files)-1; k++ {
+			name := rep.activeDiskData[k].Name
+			if retained[name] {
+				got, want := zzSnapImage(dd, k), images[name]
+				zzAssert(got[0] == want[0] && got[1] == want[1], "C11.delete.retained-user-snapshot-changed"+tag)
+			}
+		}
+	}
+	check("", r)
+	zzWellFormed("C11.delete", r)
+	zzAssume(r.Close() == nil)
+	fs.Revive()
+	r2, oerr := zzOpenReplica()
+	zzAssert(oerr == nil && r2 != nil, "C11.delete.reopen-failed")
+	if r2 != nil {
+		zzAssume(PreloadLunMap(&r2.volume) == nil)
+		check(".after-reopen", r2)
+	}
+	zzReach("C11.delete.done")
+}
